@@ -73,6 +73,12 @@ def chk_entries(inp):
             M = cm.make_covariance_matrix().astype(float)
         except Exception as ex:
             return bad("building the covariance matrix raises %s for a legal configuration (%s: sub-aperture diameters %r)" % (type(ex).__name__, name, c["d"]), repr(ex)[:200], "a covariance matrix")
+        if name in ("three-wfs", "diff-d", "asym-offaxis"):
+            # the multi-process build path returns the same matrix (sensors with different numbers of sub-apertures included)
+            cmt = aotools.CovarianceMatrix(nw, masks, T, c["d"], c["H"], c["theta"], lam, 3, numpy.array(alts), r0s, L0s, 2)
+            Mt = cmt.make_covariance_matrix().astype(float)
+            if Mt.shape != M.shape or not numpy.array_equal(Mt, M):
+                return bad("the two-process build of the covariance matrix differs from the single-process build (%s)" % name, float(abs(Mt - M).max()) if Mt.shape == M.shape else list(Mt.shape), 0.0)
         O, meas = oracle(masks, T, c["d"], c["H"], c["theta"], lam, alts, r0s, L0s)
         sc = abs(O).max()
         if M.shape != O.shape:
